@@ -326,6 +326,87 @@ fn run_history(h: &HxCtx, seq: &[usize], l: &mut Local, which: usize) {
     }
 }
 
+// ---- tag names are compared as given ----------------------------------------------------------
+
+/// Names on the rule side and on the API side: the empty name, padded names, case twins, a name
+/// with an inner blank, a non-ASCII name. Membership is by equality of the names given.
+const NAMES: [&str; 9] = ["", "a", " a", "a ", "A", "ab", "a b", "\u{e9}", "\u{c9}"];
+const NAME_FORMS: [(&str, &str); 4] = [("adv$tag={}", "blocking"), ("@@adv$tag={}", "exception"), ("adv$important,tag={}", "important"), ("||x.com^$csp=d1,tag={}", "csp")];
+
+fn check_names(i: u64, l: &mut Local) {
+    let n = NAMES.len() as u64;
+    let r = NAMES[(i % n) as usize];
+    if r.ends_with(' ') {
+        // a list line is trimmed before it is parsed: a rule cannot carry a name that ends in a blank
+        return;
+    }
+    let given = NAMES[((i / n) % n) as usize];
+    let other = NAMES[((i / n / n) % n) as usize];
+    let (form, kind) = NAME_FORMS[(i / n / n / n) as usize % NAME_FORMS.len()];
+    let optimize = (i / n / n / n) as usize / NAME_FORMS.len() == 1;
+    let rule = form.replace("{}", r);
+    if !matches!(adblock::lists::parse_filter(&rule, true, Default::default()), Ok(adblock::lists::ParsedFilter::Network(_))) {
+        l.count("tag_name_rules_rejected_by_the_parser", 1);
+        return;
+    }
+    let list: Vec<&str> = if kind == "exception" { vec!["adv", rule.as_str()] } else { vec![rule.as_str()] };
+    let req = adblock::request::Request::new("https://x.com/adv", "https://z.com/", if kind == "csp" { "document" } else { "script" }).unwrap();
+    // what an active / inactive rule of this form answers
+    let observe = |e: &Engine| -> Result<String, String> {
+        catch(|| format!("{:?} {:?}", Verdict::of(&e.check_network_request(&req)), csp_set(&e.get_csp_directives(&req))))
+    };
+    let stripped: Vec<String> = list.iter().map(|x| strip_tag(x)).collect();
+    let active_ans = observe(&engine(&stripped.iter().map(|x| x.as_str()).collect::<Vec<_>>(), false, optimize));
+    let inactive_ans = observe(&engine(&list[..list.len() - 1], false, optimize));
+    l.states += 1;
+    // three ways to reach a set: use[given]; enable[given] on the empty set; use[given, other] then disable[other]
+    for way in 0..3 {
+        let mut e = engine(&list, false, optimize);
+        let model: BTreeSet<&str> = match way {
+            0 => {
+                e.use_tags(&[given]);
+                [given].into_iter().collect()
+            }
+            1 => {
+                e.enable_tags(&[given]);
+                [given].into_iter().collect()
+            }
+            _ => {
+                e.use_tags(&[given, other]);
+                e.disable_tags(&[other]);
+                [given].into_iter().filter(|x| *x != other).collect()
+            }
+        };
+        l.evaluations += 1;
+        l.transitions += 2;
+        l.compared += 1 + NAMES.len() as u64;
+        let exp = if model.contains(r) { &active_ans } else { &inactive_ans };
+        if model.contains(r) {
+            l.nontrivial += 1;
+        }
+        let got = observe(&e);
+        let case = json!({"kind":"names","index":i});
+        if &got != exp {
+            l.mismatch(Mismatch {
+                sig: format!("c07.names.activity[{}]", kind),
+                what: format!("rule {:?}, way {} with names ({:?}, {:?}): enabled set {:?}; answers {:?}, expected {:?}", rule, way, given, other, model, got, exp),
+                case: case.clone(),
+                size: (r.len() + given.len() + other.len()) as u64,
+            });
+        }
+        for m in NAMES {
+            if catch(|| e.tag_exists(m)) != Ok(model.contains(m)) {
+                l.mismatch(Mismatch {
+                    sig: "c07.names.tag_exists".into(),
+                    what: format!("rule {:?}, way {} with names ({:?}, {:?}): enabled set {:?}, tag_exists({:?}) says otherwise", rule, way, given, other, model, m),
+                    case: case.clone(),
+                    size: (r.len() + given.len() + other.len()) as u64,
+                });
+            }
+        }
+    }
+}
+
 fn hx_lists() -> Vec<(Vec<&'static str>, bool)> {
     let full: Vec<&'static str> = POOL.to_vec();
     let tagged: Vec<&'static str> = POOL.iter().copied().filter(|r| tag_of(r).is_some()).collect();
@@ -336,6 +417,7 @@ fn hx_lists() -> Vec<(Vec<&'static str>, bool)> {
 fn replay(case: &Value, l: &mut Local) {
     let bat = battery();
     match case["kind"].as_str().unwrap_or("") {
+        "names" => check_names(case["index"].as_u64().unwrap_or(0), l),
         "history" => {
             let which = case["list_id"].as_u64().unwrap_or(0) as usize;
             let lists = hx_lists();
@@ -366,6 +448,10 @@ fn check(ctx: &Ctx) -> i32 {
         }
         check_static(&list, optimize, &bat, l);
     });
+    // tag names: every (rule-side name, two API-side names) triple x 4 rule categories x optimise
+    let nn = NAMES.len() as u64;
+    ctx.bound("tag_name_spellings", NAMES.len());
+    ctx.par_range("tag names: rule-side x API-side spellings", nn * nn * nn * NAME_FORMS.len() as u64 * 2, 4, |i, l| check_names(i, l));
     // HX part
     let depth: u32 = ctx.tier.pick(3, 4);
     ctx.bound("history_depth", depth);
@@ -392,7 +478,7 @@ fn check(ctx: &Ctx) -> i32 {
     }
     ctx.finish(
         "model_checking",
-        "BX: all 16384 subsets of the 14-rule pool x optimise on/off x all 8 tag sets x a 30-query battery (network + CSP), compared with an engine built from the tag-stripped sublist; HX: on 4 representative lists every operation sequence of length <= d over 28 operations (use/enable/disable of every subset of {a,b,c}; deserialize of the same list serialised under every subset of {a,b}), each on a fresh real engine; tag_exists checked against the set model after every step and the battery after the last; non-trivial = a tagged rule is present / the final tag set is non-empty; states = engines built + model states, transitions = operations and queries executed",
+        "BX: all 16384 subsets of the 14-rule pool x optimise on/off x all 8 tag sets x a 30-query battery (network + CSP), compared with an engine built from the tag-stripped sublist; HX: on 4 representative lists every operation sequence of length <= d over 28 operations (use/enable/disable of every subset of {a,b,c}; deserialize of the same list serialised under every subset of {a,b}), each on a fresh real engine; tag_exists checked against the set model after every step and the battery after the last; tag names: 9 spellings (empty, padded, case twins, inner blank, non-ASCII) on the rule side x the same on the API side (use, enable, use+disable of a second name) x 4 rule categories x optimise, membership by equality of the names given; non-trivial = a tagged rule is present / the final tag set is non-empty; states = engines built + model states, transitions = operations and queries executed",
         &["the tag-stripped reference engine is built by the same crate (differential); tag combined with redirect / removeparam / generichide is outside the property's list of categories and not generated"],
     )
 }
